@@ -7,6 +7,7 @@ CONSTANTS
   FixRecoverStale = TRUE
   FixShortHdr = TRUE
   FixTailOrder = TRUE
+  FreshTmp = TRUE
   KnownRebase = TRUE
 INVARIANTS NoCrashOK DurSane AtRest PowerLoss1
 CHECK_DEADLOCK FALSE
